@@ -392,6 +392,26 @@ pub fn inproc(f: Fmt, shape: Shape, to: Fmt, thorough: bool, acc: &mut Acc) -> O
     last_ok
 }
 
+/// Flat YAML text whose characters U+0700..U+07FF encode as MessagePack collection markers: the
+/// MessagePack trial runs into its nesting limit on it. That limit belongs to MessagePack input; the
+/// text is one shallow document and must translate - detected exactly as when its format is named.
+fn text_reading_as_nested_msgpack(acc: &mut Acc) {
+    for d in [100usize, 1000, 1023, 1024, 1025, 3000, 20000] {
+        for (f, text) in [(Fmt::Yaml, format!("\u{71c}: {}\n", "\u{71c}".repeat(d))), (Fmt::Yaml, format!("- \u{7a6}{}\n- 2\n", "\u{7a6}".repeat(d))), (Fmt::Yaml, (0..d).map(|i| format!("\u{710}{i}: 1\n")).collect::<String>())] {
+            for mode in [Mode::Slice, Mode::Reader(Sched::All), Mode::Reader(Sched::Fixed(7))] {
+                acc.evals += 1;
+                acc.count("texts_reading_as_nested_msgpack");
+                let named = run_mode(text.as_bytes(), &mode, Some(f), Fmt::Json);
+                let detected = run_mode(text.as_bytes(), &mode, None, Fmt::Json);
+                if named.verdict.class() != detected.verdict.class() || (named.verdict.is_ok() && named.out != detected.out) {
+                    acc.violation(Violation { sig: format!("{} text of characters that encode as MessagePack markers: detected and named runs disagree", f.name()), case: json!({"part": "marker_text", "format": f.name(), "characters": d, "mode": mode.describe()}), observed: format!("named: {}; detected: {}", named.verdict.show(), detected.verdict.show()), expected: "the same verdict and output (MessagePack's nesting limit does not apply to text)".into() });
+                    return;
+                }
+            }
+        }
+    }
+}
+
 fn size_hook(acc: &mut Acc, seed: u64, n: usize) {
     // the MessagePack size calculator vs the harness's decoder, on generated and truncated values
     for i in 0..n {
@@ -528,7 +548,8 @@ pub fn run(ctx: &Ctx) -> i32 {
         }
     }
     size_hook(&mut acc, ctx.seed, ctx.size(20000, 400000));
-    let rule = format!("{} (source format, nesting shape, target) combinations: shapes arrays / maps / alternating / 2 random mixtures (+ key-position nesting for MessagePack; MessagePack documents also spelled with 16/32-bit length headers and with 16-entry collections on the deepest path, and with one collection of 32 768 / 50 000 entries outermost or deepest; every JSON / MessagePack / YAML document also followed by a second, tiny document) x 4 targets; depths: a +-6 window around each format's limit (MessagePack 1024, JSON 128, YAML 128, TOML 80; YAML also in block style), 1000..1025, 10^4, 10^5{} ; at every depth slice vs reader(all) vs reader(fixed 7), explicit and detected, and (depths up to 2000) detected on a translator that has just translated a detected input of each format; the debug and release binaries (default stack; file and stdin, source format given or detected) at the limit, one beyond and far beyond; MessagePack size calculator vs the harness decoder on generated, padded and truncated values; distinct non-trivial = distinct combinations", work.len(), if thorough { ", 10^6 (3*10^4 for YAML)" } else { "" });
+    text_reading_as_nested_msgpack(&mut acc);
+    let rule = format!("{} (source format, nesting shape, target) combinations: shapes arrays / maps / alternating / 2 random mixtures (+ key-position nesting for MessagePack; MessagePack documents also spelled with 16/32-bit length headers and with 16-entry collections on the deepest path, and with one collection of 32 768 / 50 000 entries outermost or deepest; every JSON / MessagePack / YAML document also followed by a second, tiny document) x 4 targets; depths: a +-6 window around each format's limit (MessagePack 1024, JSON 128, YAML 128, TOML 80; YAML also in block style), 1000..1025, 10^4, 10^5{} ; at every depth slice vs reader(all) vs reader(fixed 7), explicit and detected, and (depths up to 2000) detected on a translator that has just translated a detected input of each format; the debug and release binaries (default stack; file and stdin, source format given or detected) at the limit, one beyond and far beyond; MessagePack size calculator vs the harness decoder on generated, padded and truncated values; flat YAML text of 100..20 000 characters that encode as MessagePack collection markers (named vs detected); distinct non-trivial = distinct combinations", work.len(), if thorough { ", 10^6 (3*10^4 for YAML)" } else { "" });
     ev::finish(
         Finish { ctx, level: "exploration", rule, assumptions: vec!["YAML depths are capped (parsing is quadratic in depth)".into(), "targets that refuse the document for another reason (TOML with an array root) are left out of the limit comparison".into()], extra, exhaustive: false, min_distinct: 40, must_reach: vec![("binary_status_matches_library".into(), 100), ("binary_runs_debug".into(), 50), ("binary_runs_with_detection".into(), 50), ("size_hook_cases".into(), 1000), ("inproc_msgpack".into(), 100), ("msgpack_styled_documents".into(), 500)] },
         acc,
